@@ -138,6 +138,10 @@ def c13_cases():
         # window inside one helper is met by construction
         for k in range(1, na + 3):
             cases.append(("tok", ai, ai, k))
+        # pre-emption around the j-th execution of a line that writes shared state
+        # (positions resolved from A's solo profile; empty on a per-instance tree)
+        for j in range(12):
+            cases.append(("sw", ai, (ai + 1 + H("swpartner", ai, j) % (n - 1)) % n if j % 2 else ai, j))
         # the same windows met on ONE thread: B is called from inside A's parse
         bi = (ai + 1 + H("nestpartner", ai) % (n - 1)) % n
         for k in range(1, na + 3):
@@ -224,6 +228,28 @@ def c13_spec(ci):
             spec["schedule"] = [[0, 1 << 40], [1, 1 << 40]]
         return spec
     A, B = list(progs[ai]), list(progs[bi])
+    if kind == "sw":
+        opk = ["gen", "parse", "visit", "gen"][(k // 2) % 4 if k < 8 else ci % 4]
+        def mk(i, items):
+            fn = "act%d.c" % i
+            if opk == "gen":
+                return {"op": "gen", "filename": fn, "items": items, "select": ["root", 0], "reduce": False, "gencls": "plain"}
+            if opk == "visit":
+                return {"op": "visit", "filename": fn, "items": items, "visitor": "Collect", "tag": "tag%d" % i}
+            return {"op": "parse", "filename": fn, "items": items, "obj": "P0"}
+        actors = [{"reuse": False, "ops": [mk(0, A)], "kind": kind}, {"reuse": False, "ops": [mk(1, B)], "kind": kind}]
+        for i, a in enumerate(actors):
+            a["markers"] = {"strings": ["act%d.c" % i, "tag%d" % i], "line_block": None, "not_for": {}}
+        return {
+            "property": "C13",
+            "mode": "line",
+            "policy": {"kind": "sweep"},
+            "schedule_at_shared_write": [H("swhit", ci) % 24, [0, 1, 2, 3][ci % 4]],
+            "schedule": [[0, 1 << 40], [1, 1 << 40]],
+            "actors": actors,
+            "check_fresh": False,
+            "swarm": {"faulty": False, "theme": "sweep:" + kind},
+        }
     if kind == "nest":
         inner = {"op": "gen" if ci % 5 == 0 else "parse", "filename": "act1.c", "items": B}
         a0 = {"op": "parse", "filename": "act0.c", "items": A, "nest": {"at": k, "ops": [inner]}}
@@ -262,6 +288,12 @@ def c13_spec(ci):
         "check_fresh": False,
         "swarm": {"faulty": False, "theme": "sweep:" + kind},
     }
+
+
+def sw_case_indices():
+    if "sw_idx" not in _CACHE:
+        _CACHE["sw_idx"] = [i for i, c in enumerate(c13_cases()) if c[0] == "sw"]
+    return _CACHE["sw_idx"]
 
 
 def n_cases(prop):
